@@ -69,7 +69,7 @@ PROPS = {
         partial=['Props/MachineObjects.lean proves on the whole machine, for every program and every number of steps, that a closed channel stays closed (closed_channel_forever); that put / subscribe (iteration) / close of the machine are the open models transitions is proved (Props/MachineChannel.lean); deliver and leave (which go through find? on the consumers key) are tied by correspondence only'],
     ),
     'C12': dict(
-        gen=['Resources'], props=['C12'], model=['Prim/Resources', 'Machine/Run', 'Judge/Judges'], harness='c12',
+        gen=['Resources'], props=['C12', 'MachineResources', 'MachineStructure'], model=['Prim/Resources', 'Machine/Run', 'Judge/Judges', 'Lemmas/KView', 'Lemmas/OView', 'Lemmas/CView', 'Lemmas/CStepFrames', 'Lemmas/CStep'], harness='c12',
         trusted_base=KERNEL_TB + MACHINE_TB + [
             'shape templates (exact AST match, else broken obligation): BorrowedResources.__aenter__/__aexit__, ClaimedResources.__aenter__, '
             '__remove_resources__/__insert_resources__, Tracked.set, _resource_level.__comparison_op__',
@@ -317,7 +317,7 @@ MANIFEST_TEXT = {
         technique='Lean 4 per-consumer refinement invariant + exact whole-machine differential traces + Lean trace judge',
         design_ref='6 (C11), 3, 4.B'),
     'C12': dict(
-        level='Lean 4 theorems over an open model of the borrow protocol for every sequence of request/acquire/insert/release/abort/'
+        level='The resource arithmetic of the whole machine is the open models, for every world (Props/MachineResources.lean: borrow_takes_debits = vsub of exactly the blocks debits in one step, borrow_returns_debits = vadd of exactly the debits, resAdjust_arith, setLevels_levels); on the whole machine for every program: resource_listeners_append_only, a borrowed share keeps its supply (Props/MachineStructure.lean). Lean 4 theorems over an open model of the borrow protocol for every sequence of request/acquire/insert/release/abort/'
               'increase/decrease actions: never_negative (vector levels, guard and debit in one step), borrow_atomic, claim_never_waits, '
               'conservation (available = supply - everything acquiring/held/releasing/leaked), available_le_supply; the clause '
               '"returned on every exit route" is proved false on the unchanged code (returned_on_every_exit_false, finding F4) and kept '
